@@ -114,9 +114,86 @@ class Tr:
 
     def path_of(self, e):
         s = src(e)
-        if s in self.env:
+        if s in self.env and self.env[s] in ("Main", "Bak", "Tmp"):
             return self.env[s]
+        v = self.pure_value(e)
+        if v is not None and v in self.symbolic():
+            return self.symbolic()[v]
         U(e, "unknown path expression")
+
+    # ---- pure path arithmetic (local names computed from the file names with os.path functions, f-strings, +):
+    # evaluated CONCRETELY on a sample file name, so that "f'{a[0]}.tmp{a[1]}'" and "base + '.tmp' + ext" are the
+    # same thing to the translator; anything that touches the file system or the object is not pure.
+    PURE_OS_PATH = ("splitext", "dirname", "basename", "join", "realpath", "abspath", "normpath")
+
+    def symbolic(self):
+        ext = "." + self.fmt
+        return {"/d/net" + ext: "Main", "/d/net" + ext + ".bak": "Bak", "/d/net.tmp" + ext: "Tmp"}
+
+    def conc_env(self):
+        if not hasattr(self, "conc") or self.conc.get("__fmt") != self.fmt:
+            ext = "." + self.fmt
+            self.conc = {"__fmt": self.fmt, "self.persistence_file": "/d/net" + ext, "self.persistence_bak": "/d/net" + ext + ".bak"}
+        return self.conc
+
+    def is_pure(self, e):
+        if isinstance(e, ast.Constant):
+            return isinstance(e.value, (str, int))
+        if isinstance(e, ast.Name):
+            return e.id in self.conc_env()
+        if isinstance(e, ast.Attribute):
+            return src(e) in ("self.persistence_file", "self.persistence_bak")
+        if isinstance(e, ast.JoinedStr):
+            return all(self.is_pure(v) for v in e.values)
+        if isinstance(e, ast.FormattedValue):
+            return e.format_spec is None and e.conversion == -1 and self.is_pure(e.value)
+        if isinstance(e, ast.BinOp):
+            return isinstance(e.op, ast.Add) and self.is_pure(e.left) and self.is_pure(e.right)
+        if isinstance(e, ast.Subscript):
+            return self.is_pure(e.value) and isinstance(e.slice, ast.Constant) and isinstance(e.slice.value, int)
+        if isinstance(e, ast.Tuple):
+            return all(self.is_pure(v) for v in e.elts)
+        if isinstance(e, ast.Call):
+            return (not e.keywords and isinstance(e.func, ast.Attribute) and src(e.func.value) == "os.path"
+                    and e.func.attr in self.PURE_OS_PATH and all(self.is_pure(a) for a in e.args))
+        return False
+
+    def pure_value(self, e):
+        if not self.is_pure(e):
+            return None
+        import posixpath
+        import types
+        fake_path = types.SimpleNamespace(splitext=posixpath.splitext, dirname=posixpath.dirname, basename=posixpath.basename,
+                                          join=posixpath.join, realpath=lambda p: p, abspath=lambda p: p,
+                                          normpath=posixpath.normpath)
+        env = {k: v for k, v in self.conc_env().items() if "." not in k and not k.startswith("__")}
+        env["os"] = types.SimpleNamespace(path=fake_path)
+        env["self"] = types.SimpleNamespace(persistence_file=self.conc["self.persistence_file"],
+                                            persistence_bak=self.conc["self.persistence_bak"])
+        try:
+            return eval(compile(ast.Expression(e), "<savetrace>", "eval"), {"__builtins__": {}}, env)
+        except Exception:
+            return None
+
+    def pure_assign(self, st):
+        """Evaluate `name = <pure path expression>` (or a tuple of names); True if it was one."""
+        if not (isinstance(st, ast.Assign) and len(st.targets) == 1):
+            return False
+        t = st.targets[0]
+        names = [t] if isinstance(t, ast.Name) else (list(t.elts) if isinstance(t, ast.Tuple) else None)
+        if not names or not all(isinstance(n, ast.Name) for n in names):
+            return False
+        v = self.pure_value(st.value)
+        if v is None:
+            return False
+        vals = [v] if isinstance(t, ast.Name) else list(v) if isinstance(v, tuple) and len(v) == len(names) else None
+        if vals is None:
+            return False
+        for n, x in zip(names, vals):
+            self.conc[n.id] = x
+            if isinstance(x, str) and x in self.symbolic():
+                self.env[n.id] = self.symbolic()[x]
+        return True
 
     def save_block(self, stmts, out, guard, intry, top):
         for st in stmts:
@@ -127,11 +204,13 @@ class Tr:
                 out.append(("IGuardNeedSave", guard, intry, False))
             elif s == "fname = os.path.realpath(self.persistence_file)":
                 self.env["fname"] = "Main"
+                self.pure_assign(st)
             elif s == "exists = os.path.isfile(fname)" and self.env.get("fname") == "Main":
                 self.env["exists"] = True
                 out.append(("IExists Main", guard, intry, False))
             elif s == "dirname = os.path.dirname(fname)" and self.env.get("fname") == "Main":
                 self.env["dirname"] = True
+                self.pure_assign(st)
             elif (isinstance(st, ast.If) and src(st.test) ==
                   "not os.access(dirname, os.W_OK) or (exists and (not os.access(fname, os.W_OK)))"):
                 body = [b for b in st.body if not is_log(b)]
@@ -139,10 +218,8 @@ class Tr:
                         or not self.env.get("dirname") or guard or intry:
                     U(st, "permission check")
                 out.append(("IPermCheck Main", guard, intry, False))
-            elif s == "split_fname = os.path.splitext(fname)" and self.env.get("fname") == "Main":
-                self.env["split"] = True
-            elif s == "tmp_fname = f'{split_fname[0]}.tmp{split_fname[1]}'" and self.env.get("split"):
-                self.env["tmp_fname"] = "Tmp"
+            elif self.pure_assign(st):
+                pass          # local path arithmetic (e.g. the temporary file's name), evaluated on a sample name
             elif s in ("self.need_save = False", "self.need_save = True"):
                 out.append(("ISetNeedSave %s" % s.split()[-1].lower(), guard, intry, False))
             elif isinstance(st, ast.Try):
